@@ -830,3 +830,27 @@ Proof.
     fold s. eexists _, _, _. split; [reflexivity|].
     split; [exact (iv_rep _ _ _ _ _ _ _ _ I3)|]. split; [exact (iv_fr _ _ _ _ _ _ _ _ I3)|exact (iv_k0 _ _ _ _ _ _ _ _ I3)].
 Qed.
+
+(* ------------------------------------------------------------------ the state at program start, and reading a register off a memory *)
+Lemma regs_at_init : regs_at cglobals gb_reg__bufs (repeat 0 256) RegDefs.regs0.
+Proof.
+  assert (C : forall c, cellp gb_reg__bufs c = VInt 0).
+  { intro c. unfold cellp, gb_reg__bufs. destruct (Nat.lt_ge_cases c 256) as [L|L]; [apply nth_repeat|].
+    apply nth_overflow. rewrite repeat_length. exact L. }
+  constructor.
+  - reflexivity.
+  - reflexivity.
+  - reflexivity.
+  - reflexivity.
+  - unfold ints_ok. apply Forall_forall. intros x Hx. apply repeat_spec in Hx. subst x. lia.
+  - reflexivity.
+  - intros c _. cbn [RegDefs.regs0 reg_cell]. apply C.
+  - intros c c' b _ _ E. rewrite C in E. discriminate.
+  - apply le_n.
+Qed.
+(* the text register c holds in memory m (None: the cell is NULL, or not a pointer to a C string) *)
+Definition reg_text (m : mem) (c : nat) : option (list val) :=
+  match nth_error m G_reg__bufs with
+  | Some pb => match nth c pb VUndef with VPtr b 0 => nth_error m b | _ => None end
+  | None => None
+  end.
